@@ -88,6 +88,7 @@ type State struct {
 	ghostv  map[string]*Term
 	heapAllHavoc int
 	recvd   map[string]bool // channels a value was received from on this path
+	recvdT  []*Term         // the same channels as terms
 }
 
 func (st *State) clone() *State {
@@ -128,6 +129,7 @@ func (st *State) clone() *State {
 	for k, v := range st.ghostv {
 		n.ghostv[k] = v
 	}
+	n.recvdT = append([]*Term{}, st.recvdT...)
 	n.recvd = make(map[string]bool, len(st.recvd))
 	for k, v := range st.recvd {
 		n.recvd[k] = v
